@@ -19,7 +19,7 @@ use std::io::{BufRead, BufReader, BufWriter, Read, Write};
 use std::path::Path;
 use java_string::{JavaStr, JavaString};
 use crate::lines::tiny_line::TinyLine;
-use crate::lines::WithMoreIdentIter;
+use crate::lines::{Line, WithMoreIdentIter};
 use crate::tree::mappings::{ClassMapping, FieldMapping, JavadocMapping, MappingInfo, MethodMapping, ParameterMapping, ClassNowodeMapping, FieldNowodeMapping, Mappings, MethodNowodeMapping, ParameterNowodeMapping};
 use crate::tree::names::{Names, Namespaces};
 use crate::tree::NodeInfo;
@@ -100,6 +100,11 @@ pub fn read<const N: usize, Ns>(reader: impl Read) -> Result<Mappings<N, Ns>> {
 	let namespaces = header.into_namespaces()?;
 
 	let mut mappings = Mappings::new(MappingInfo { namespaces });
+
+	// the comment of the mappings themselves, `write` puts it right after the header
+	while let Some(line) = lines.next_if(|line| line.as_ref().is_ok_and(|line| line.get_idents() == 1 && line.first_field == "c")) {
+		add_comment(&mut mappings.javadoc, line?)?;
+	}
 
 	WithMoreIdentIter::new(&mut lines).on_every_line(|iter, line| {
 		if line.first_field == "c" {
